@@ -14,8 +14,9 @@
 //!   {"op":"pass","slot":"s","to":"B1"} | {"op":"dropctx","ctx":"A"} |
 //!   {"op":"noise","kind":"objs|strings|symbols|gc|ctx|raw","n":k} ]}
 //! Result: {"id", "steps":[{"out":[[tag,line]…], "c": completion} | {"ok":true} | {"err":…}]}
-//! `share_realm` / `share_inbox` are *mutation switches of the harness* used to demonstrate that the check
-//! notices a loss of isolation (a second "realm" that is really the first one); never set by the check proper.
+//! `share_realm` / `share_inbox` / `mirror_sab` are *mutation switches of the harness* used to demonstrate that the
+//! check notices a loss of isolation (a second "realm" that is really the first one; a sabotage that silently also
+//! happens in the sibling realms of the context, as if they shared their intrinsics); never set by the check proper.
 
 use boa_engine::{
     Context, JsResult, JsString, JsSymbol, JsValue, NativeFunction, Source, context::ContextBuilder,
@@ -49,6 +50,7 @@ struct World {
     slots: HashMap<String, JsValue>,
     share_realm: bool,
     share_inbox: bool,
+    mirror_sab: bool,
 }
 
 fn tagged_print(_this: &JsValue, args: &[JsValue], tag: &String, ctx: &mut Context) -> JsResult<JsValue> {
@@ -204,6 +206,17 @@ impl World {
                     self.slots.insert(k.to_string(), v.clone());
                 }
                 let out: Vec<Value> = take_chan().into_iter().map(|(t, l)| json!([t, l])).collect();
+                if self.mirror_sab && src.starts_with("__sab(") {
+                    // MUTATION (demonstration only): the siblings of the realm suffer the same sabotage, silently
+                    let cn = re.ctx.clone();
+                    let sibs: Vec<Realm> = self.realms.iter().filter(|(n, e)| e.ctx == cn && **n != rn).map(|(_, e)| e.realm.clone()).collect();
+                    for sr in sibs {
+                        let old = ctx.enter_realm(sr);
+                        let _ = ctx.eval(Source::from_bytes(&src));
+                        ctx.enter_realm(old);
+                    }
+                    let _ = take_chan();
+                }
                 json!({"out": out, "c": c, "j": jc})
             }
             "pass" => {
@@ -239,6 +252,7 @@ fn run_scenario(sc: Value) -> Value {
         slots: HashMap::new(),
         share_realm: b("share_realm"),
         share_inbox: b("share_inbox"),
+        mirror_sab: b("mirror_sab"),
     };
     let _ = take_chan();
     let mut outs = Vec::new();
